@@ -20,3 +20,7 @@ OBLIGATIONS = OBLIGATIONS + [K.TREE_OFFSETS]
 OBLIGATIONS = OBLIGATIONS + [K.EVERY_VALUE]
 OBLIGATIONS = OBLIGATIONS + [K.MAGICS]
 OBLIGATIONS = OBLIGATIONS + [K.ARG_NAMES]
+OBLIGATIONS = OBLIGATIONS + [K.STREAM_SIBS]
+OBLIGATIONS = OBLIGATIONS + [K.ZOOMCOUNT_SIBS]
+OBLIGATIONS = OBLIGATIONS + [K.PROCESSOR_ARGS]
+OBLIGATIONS = OBLIGATIONS + [K.PROCESS_DATA]
